@@ -859,9 +859,21 @@ impl<H: DnsHandle> DnssecDnsHandle<H> {
                     return None;
                 }
 
-                // TODO: Should this sig.signer_name should be confirmed to be in the same zone as
-                // the rrsigs and rrset?
-                //
+                // The Signer's Name must be the name of the zone that contains the RRset (RFC 4035
+                // section 5.3.1). The zone cuts are not known here, but that zone's name is the
+                // owner name or one of its ancestors in any case. Without this check any zone
+                // that can be validated (or any zone that is provably insecure) could vouch for
+                // (or downgrade) RRsets of unrelated zones.
+                if !query.name.zone_of(&key.name) {
+                    warn!(
+                        rrset_name = ?key.name,
+                        rrset_type = ?key.record_type,
+                        signer_name = %query.name,
+                        "ignoring RRSIG whose signer name is not the owner name or an ancestor of it",
+                    );
+                    return None;
+                }
+
                 // Break verification cycle
                 if query.name == original_query.name
                     && query.query_type == original_query.query_type
@@ -1333,8 +1345,9 @@ impl RrsigValidity {
 
             // "The RRSIG RR's Signer's Name field MUST be the name of the zone that contains the
             // RRset"
-            // There is nothing to check here, but this does tell us which zone a signature comes
-            // from.
+            // Which ancestor of the owner name is the apex of that zone is not known here, but
+            // it has to be one of them (or the owner name itself).
+            sig_input.signer_name.zone_of(&key.name) &&
 
             // "The RRSIG RR's Type Covered field MUST equal the RRset's type"
             sig_input.type_covered == key.record_type &&
